@@ -88,8 +88,12 @@ def plant(d, r, kind, enc, comment=None):
         ln = d.add("${gettext('%s')}" % m + nl)
         exp(ln, "gettext", m)
     elif kind == "expr-multiline":
-        ln = d.add("${ fn(1," + nl + ("    _('%s')," % m) + nl + "    3) }" + nl)
-        exp(ln + 1, "_", m)
+        if r.random() < 0.5:
+            ln = d.add("${ fn(1," + nl + ("    _('%s')," % m) + nl + "    3) }" + nl)
+            exp(ln + 1, "_", m)
+        else:
+            ln = d.add("${  " + nl + ("    _('%s')" % m) + nl + "}" + nl)
+            exp(ln + 1, "_", m)
     elif kind == "expr-two":
         m2 = d.msg(w)
         ln = d.add("${_('%s') + _('%s')}" % (m, m2) + nl)
@@ -112,7 +116,17 @@ def plant(d, r, kind, enc, comment=None):
         opener = "<%" if kind == "code-block" else "<%!"
         lead = r.choice([1, 1, 2])
         margin = r.choice(["", "    "])
-        ln = d.add(opener + nl * lead + margin + "a1 = _('%s')" % m + nl + margin + "a2 = 1" + nl + margin + "a3 = ngettext('%s', '%s', a2)" % (m2, m3) + nl + "%>" + nl)
+        if r.random() < 0.4:
+            # blanks after the opening tag / a line of spaces before the code
+            opener = opener + r.choice(["  ", "\t"])
+        if r.random() < 0.3:
+            opener = opener + nl + "    "
+            lead_extra = 1
+        else:
+            lead_extra = 0
+        lead0 = lead
+        lead = lead + lead_extra
+        ln = d.add(opener + nl * lead0 + margin + "a1 = _('%s')" % m + nl + margin + "a2 = 1" + nl + margin + "a3 = ngettext('%s', '%s', a2)" % (m2, m3) + nl + "%>" + nl)
         exp(ln + lead, "_", m)
         exp(ln + lead + 2, "ngettext", (m2, m3))
     elif kind == "def-signature":
